@@ -15,6 +15,10 @@ import (
 var VerifNewSink func(addr netip.Addr) (Sink, error)
 var VerifNewSource func() (Source, error)
 
+// VerifMustClosePort is what NewSourceSink reports as the handle's MustClosePort (the platform flag of the Windows
+// raw-socket handle; always false on Linux): the instrumenter rewrites the literal to this variable.
+var VerifMustClosePort bool
+
 func VerifClassicBPF(spec PacketFilterSpec) ([]bpf.RawInstruction, error) {
 	return getClassicBPFFilter(spec)
 }
